@@ -270,6 +270,67 @@ def run_template(c, work):
     return fails
 
 
+def cp2k_tree(path):
+    """Independent parser: CP2K input -> nested dict {name: {"settings": [...], "data": {key: rest}, "sub": {...}}}."""
+    root = {"sub": {}, "data": {}, "settings": []}
+    stack = [root]
+    for ln in open(path):
+        t = ln.strip()
+        if not t or t.startswith("#") or t.startswith("!"):
+            continue
+        if t.startswith("&"):
+            w = t[1:].split()
+            if w[0].upper().startswith("END"):
+                stack.pop()
+            else:
+                node = {"sub": {}, "data": {}, "settings": w[1:]}
+                stack[-1]["sub"][w[0].upper()] = node
+                stack.append(node)
+        else:
+            w = t.split(None, 1)
+            stack[-1]["data"][w[0]] = w[1] if len(w) > 1 else None
+    return root["sub"]
+
+
+def run_cp2k(c, work):
+    from infretis.classes.engines import cp2k as CP
+    present, update = list(c["present"]), list(c["update"])
+    vals = {"STEPS": "10", "TIMESTEP": "0.5", "TEMPERATURE": "300"}
+    lines = ["&GLOBAL", "  PROJECT test", "  RUN_TYPE MD", "&END GLOBAL", "&MOTION", "  &MD", "    ENSEMBLE NVE"]
+    lines += [f"    {k} {vals[k]}" for k in sorted(present)]
+    lines += ["  &END MD"]
+    if c["has_print"]:
+        lines += ["  &PRINT", "    &RESTART", "      BACKUP_COPIES 0", "    &END RESTART", "  &END PRINT"]
+    lines += ["&END MOTION"]
+    src, o1, o2 = (os.path.join(work, x) for x in ("t.inp", "o1.inp", "o2.inp"))
+    with open(src, "w") as fh:
+        fh.write("\n".join(lines) + "\n")
+    new = {"STEPS": "77", "TIMESTEP": "0.25", "TEMPERATURE": "123"}
+    upd = {}
+    if update:
+        upd["MOTION->MD"] = {"data": {k: new[k] for k in sorted(update)}}
+    if c["add_section"]:
+        upd["FORCE_EVAL->SUBSYS->CELL"] = {"data": {"ABC": "10.0 10.0 10.0"}}
+    rem = ["MOTION->PRINT"] if c["remove_print"] else None
+    CP.update_cp2k_input(src, o1, update=upd or None, remove=rem)
+    CP.update_cp2k_input(o1, o2, update=upd or None, remove=rem)
+    exp = cp2k_tree(src)
+    for k in update:
+        exp["MOTION"]["sub"]["MD"]["data"][k] = new[k]
+    if c["add_section"]:
+        exp["FORCE_EVAL"] = {"settings": [], "data": {}, "sub": {"SUBSYS": {"settings": [], "data": {}, "sub": {"CELL": {"settings": [], "data": {"ABC": "10.0 10.0 10.0"}, "sub": {}}}}}}
+    if c["remove_print"]:
+        exp["MOTION"]["sub"].pop("PRINT", None)
+    fails = []
+    got = cp2k_tree(o1)
+    if got != exp:
+        fails.append(("cp2k:edit", f"editing MOTION->MD {sorted(update)} (present {sorted(present)}), add_section={c['add_section']}, remove_print={c['remove_print']}: "
+                                   f"the resulting section tree differs from the requested one: MD = {got.get('MOTION', {}).get('sub', {}).get('MD', {}).get('data')}"))
+    if cp2k_tree(o2) != got:
+        fails.append(("cp2k:idempotent", "applying the same CP2K edit twice changes the tree again"))
+    return fails
+
+
 def _job(chunk):
     work = common.tmpdir("c19x-")
     out, n, sample = [], 0, None
@@ -281,7 +342,7 @@ def _job(chunk):
             c = {k: (sorted(v) if isinstance(v, (set, frozenset)) else v) for k, v in st["c"].items()}
             n += 1
             try:
-                fails = run_traj(c, work) if c["kind"] == "traj" else run_template(c, work)
+                fails = run_traj(c, work) if c["kind"] == "traj" else (run_cp2k(c, work) if c["kind"] == "cp2k" else run_template(c, work))
             except Exception as exc:  # noqa: BLE001
                 import traceback
                 tb = traceback.extract_tb(exc.__traceback__)
@@ -307,7 +368,7 @@ def main(tier, replay=None):
         work = common.tmpdir("c19r-")
         try:
             c = rp["case"]["case"]
-            fails = run_traj(c, work) if c["kind"] == "traj" else run_template(c, work)
+            fails = run_traj(c, work) if c["kind"] == "traj" else (run_cp2k(c, work) if c["kind"] == "cp2k" else run_template(c, work))
         finally:
             shutil.rmtree(work, ignore_errors=True)
         if fails:
@@ -351,6 +412,6 @@ def main(tier, replay=None):
     finally:
         common.rmtree(work)
     chk.assumptions += ["values live on the decimal grid of each format (k * 10^-p realised as the double nearest to the decimal string); "
-                        "the xyz header carries the box with four decimals", "CP2K section-tree editing and LAMMPS variable substitution are not covered in this tier"]
+                        "the xyz header carries the box with four decimals", "LAMMPS variable substitution (write_for_run) is not covered"]
     return chk.finish("every well-formed case of Codec.tla (format x atoms x frames x frame index x value class x id order x box shape x operation; "
                       "template shapes x edits); all distinct")
